@@ -10,6 +10,8 @@
 (*  Tx     one transaction cell found at position `pos` of a real block; when `full`: SourceBoc (boc, bocc), in_msg *)
 (*         (im) and every out_msgs entry (om: key, hashes) as reported; the specification finds the message cells   *)
 (*         inside the source table itself (first reference, HashmapE 15 walk).                                      *)
+(*  Build  the library's encoder applied to a decoded message: enc / dec = "" | "e", libcells = what it wrote.           *)
+(*  Decode the library refused a message cell laid out per block.tlb (never accepted).                                *)
 (*  MsgAt  one message cell found at a position of in_msg_descr / out_msg_descr (key = dictionary key).             *)
 EXTENDS MsgHash, Json
 
@@ -108,7 +110,24 @@ JudgeMsgAt(e) ==
              <<"norm", NormOK(T, I, 1, e.hn)>>,
              <<"norm-cached", NormOK(T, I, 1, e.hnc)>> >>)
 
+\* ------------------------------------------------------------- Build / Decode
+\* Build: the library's own encoder applied to the message it decoded from `cells` (a cell laid out per block.tlb):
+\*   it must encode, what it wrote must decode again, and -- when the source holds ordinary cells only -- be the source cell.
+JudgeBuild(e) ==
+  LET T == FromJson(e.cells) IN
+  AllHold(<< <<"msg-parse", MsgParse(T, 1).ok>>,
+             <<"encode", e.enc = "">>,
+             <<"decode-own-encoding", e.dec = "">>,
+             <<"reencode", (e.enc = "" /\ \A i \in 1..Len(T) : T[i].x = Ordinary) =>
+                              ReprHash(InfoTable(FromJson(e.libcells))[1]) = ReprHash(InfoTable(T)[1])>> >>)
+\* Decode: the library refused to decode a message cell.  There is no such step: a cell the specification reads is a message.
+JudgeDecode(e) ==
+  LET T == FromJson(e.cells) IN
+  AllHold(<< <<"msg-parse", MsgParse(T, 1).ok>>, <<"decode-refused", FALSE>> >>)
+
 Judge(e) == CASE e.k = "Msg"   -> JudgeMsg(e)
+              [] e.k = "Build"  -> JudgeBuild(e)
+              [] e.k = "Decode" -> JudgeDecode(e)
               [] e.k = "Pair"  -> JudgePair(e)
               [] e.k = "Tx"    -> JudgeTx(e)
               [] e.k = "MsgAt" -> JudgeMsgAt(e)
